@@ -1,43 +1,73 @@
 """Shared order-domain model of BatteryManager._check_request (used by C02.ADM and C17.ACC).
 
-The tail of _check_request (from `bounds = self._get_bounds(...)`) is comparison-only code over the
-request power P and the four enforced bounds.  It is interpreted in the order domain with
-  il <= el <= ZERO <= eu <= iu            (the property's consistency assumption)
-and `is_close_to_zero(power)` read as `power == 0` (its tolerance is a float detail).
+The *whole* of _check_request is interpreted (not a textual tail of it), so the position of the
+`bounds = self._get_bounds(...)` / `power = request.power.as_watts()` statements, annotations on them,
+introduced locals and private helpers the comparison was extracted into do not matter:
+
+  * the request's `component_ids` is a concrete list: known ids / empty / an id without a cache
+    (three input shapes; the last two only exercise the validation prefix, which answers `Error`);
+  * `self._get_bounds(x)` yields the record of the four symbolic enforced bounds (and the run's log
+    notes whether `x` is the `pairs_data` parameter object);
+  * any other private method called on `self` is resolved in BatteryManager and interpreted;
+  * the order facts are  il <= el <= ZERO <= eu <= iu  (the property's consistency assumption) and
+    `is_close_to_zero(power)` is read as `power == 0` (its tolerance is a float detail).
+
+Code the order domain cannot give a meaning to raises AnalysisError (fail closed).
 """
 from __future__ import annotations
 
 import ast
+import copy
 from typing import Any, Callable
 
 from ..engine.absint import Obj
 from ..engine.order import Atom, OrderInterp
 from ..engine.report import AnalysisError
 from ..engine.resolver import FuncInfo, Program
-from ..engine.util import u
-from .c03 import synth
 
 BM = "microgrid._power_distributing._component_managers._battery_manager"
+MANAGER = "BatteryManager"
+GET_BOUNDS = "_get_bounds"
+RESULT_CLASSES = ("OutOfBounds", "Error")
 
 
 class AdmInterp(OrderInterp):
     def __init__(self, prog: Program) -> None:
         super().__init__(prog, prog.module(BM))
         self.ctx: dict[str, Any] = {}
+        self.manager = prog.cls(f"{BM}:{MANAGER}")
 
     def unknown_name(self, ident: str, node: ast.AST) -> Any:
         if ident == "is_close_to_zero":
             return ("builtin", "isclose0")
-        if ident in ("OutOfBounds", "Error"):
+        if ident in RESULT_CLASSES:
             return ("builtin", "result", ident)
+        if ident in ("any", "all", "frozenset"):
+            return ("builtin", ident)
         return super().unknown_name(ident, node)
 
     def get_attr(self, base: Any, attr: str, node: ast.AST) -> Any:
-        if isinstance(base, Obj) and base.cls == "self" and attr == "_get_bounds":
-            return ("builtin", "get_bounds")
-        if isinstance(base, Obj) and base.cls == "Power" and attr == "as_watts":
-            return ("builtin", "as_watts", base)
+        if isinstance(base, Obj) and base.cls == "Power" and attr not in base.fields:
+            if attr == "as_watts":
+                return ("builtin", "as_watts", base)
+            if attr == "base_value":           # Quantity.base_value: the same float
+                return base.fields["atom"]
         return super().get_attr(base, attr, node)
+
+    def obj_method(self, base: Obj, attr: str, node: ast.AST) -> Any:
+        if base.cls == MANAGER:
+            if attr == GET_BOUNDS:
+                return ("builtin", "get_bounds")
+            m = self.prog.resolve_method(self.manager, attr)
+            if m is None or not attr.startswith("_"):
+                raise AnalysisError(f"attribute self.{attr} not modelled")
+            decos = {d.id for d in m.node.decorator_list if isinstance(d, ast.Name)}
+            if "property" in decos:
+                return self.call_func(m, [base], {})
+            if "staticmethod" in decos:
+                return ("static", m)
+            return ("bound", m, base)
+        return super().obj_method(base, attr, node)
 
     def apply(self, fn: Any, pos: list[Any], kw: dict[str, Any], node: ast.AST) -> Any:
         if isinstance(fn, tuple) and fn and fn[0] == "builtin":
@@ -45,33 +75,63 @@ class AdmInterp(OrderInterp):
                 zero = self.globals.setdefault("__ZERO__", Atom("ZERO"))
                 return self.cmp3(pos[0], zero) == "="
             if fn[1] == "result":
-                return Obj(fn[2], **kw)
+                return Obj(fn[2], **kw, **{f"_{i}": v for i, v in enumerate(pos)})
             if fn[1] == "get_bounds":
+                arg = pos[0] if pos else next(iter(kw.values()), None)
+                self.log.append(("get_bounds", arg is self.ctx.get("pairs")))
                 return self.ctx["bounds"]
             if fn[1] == "as_watts":
                 return fn[2].fields["atom"]
+            if fn[1] in ("any", "all"):
+                vals = [self.truth(v, node) for v in self.iterate(pos[0], node)]
+                return any(vals) if fn[1] == "any" else all(vals)
+            if fn[1] == "frozenset":
+                return list(self.iterate(pos[0], node)) if pos else []
+        if isinstance(fn, tuple) and fn and fn[0] == "static":
+            m = fn[1]
+            self.module_stack.append(m.module)
+            try:
+                return self.call_node(m.node, self.bind_args(m.node, pos, kw))
+            finally:
+                self.module_stack.pop()
         return super().apply(fn, pos, kw, node)
 
 
 def check_request_tail(prog: Program) -> tuple[FuncInfo, ast.FunctionDef]:
-    fn = prog.func(f"{BM}:BatteryManager._check_request")
-    body = fn.node.body
-    start = None
-    for i, s in enumerate(body):
-        if isinstance(s, ast.Assign) and isinstance(s.value, ast.Call) and u(s.value.func) == "self._get_bounds":
-            start = i
-    if start is None:
-        raise AnalysisError(f"{fn.qual}: `bounds = self._get_bounds(...)` not found")
-    tail = body[start:]
-    f = synth("check_request_tail", ["self", fn.params[1], fn.params[2]], tail, [])
-    f.body = f.body[:-1] + [ast.Return(value=ast.Constant(None))]  # falls through = accepted
+    """(_check_request, the function the order domain interprets).
+
+    The interpreted function is the complete body of _check_request (falling off its end is the
+    accepting `return None`); the name is historical."""
+    fn = prog.func(f"{BM}:{MANAGER}._check_request")
+    if len(fn.params) != 3:
+        raise AnalysisError(f"{fn.qual}: expected (self, request, pairs_data), found {fn.params}")
+    f = ast.FunctionDef(
+        name="check_request",
+        args=ast.arguments(posonlyargs=[], args=[ast.arg(arg=p) for p in fn.params], kwonlyargs=[],
+                           kw_defaults=[], defaults=[]),
+        body=copy.deepcopy(fn.node.body) + [ast.Return(value=ast.Constant(None))],
+        decorator_list=[], type_params=[])
     ast.fix_missing_locations(f)
     return fn, f
 
 
+def reached_bounds(out: Any) -> bool:
+    """Did this abstract path get as far as reading the enforced bounds?"""
+    return any(isinstance(e, tuple) and e and e[0] == "get_bounds" for e in out.log)
+
+
+def bounds_from_pairs(out: Any) -> bool:
+    """Every `_get_bounds(x)` of the path was given the `pairs_data` parameter object."""
+    seen = [e for e in out.log if isinstance(e, tuple) and e and e[0] == "get_bounds"]
+    return bool(seen) and all(e[1] for e in seen)
+
+
+ID_SHAPES = ("known ids", "no ids", "unknown id")
+
+
 def explore_admission(prog: Program, post: Callable[[AdmInterp, Any, dict[str, Any]], Any],
                       extra_facts: Callable[[AdmInterp, dict[str, Any]], None] | None = None):
-    fn, tail = check_request_tail(prog)
+    fn, body = check_request_tail(prog)
     it = AdmInterp(prog)
 
     def make_args() -> dict[str, Any]:
@@ -82,12 +142,20 @@ def explore_admission(prog: Program, post: Callable[[AdmInterp, Any, dict[str, A
         it.assume("<=", zero, eu)
         it.assume("<=", eu, iu)
         adjust = it.choose(2, "adjust_power") == 1
+        shape = ID_SHAPES[it.choose(len(ID_SHAPES), "component_ids")]
         bounds = Obj("PowerBounds", inclusion_lower=il, exclusion_lower=el, exclusion_upper=eu, inclusion_upper=iu)
-        it.ctx = {"bounds": bounds, "P": P, "adjust": adjust, "il": il, "el": el, "eu": eu, "iu": iu, "zero": zero}
+        pairs = Obj("pairs")
+        it.ctx = {"bounds": bounds, "P": P, "adjust": adjust, "il": il, "el": el, "eu": eu, "iu": iu, "zero": zero,
+                  "pairs": pairs, "ids": shape}
         if extra_facts is not None:
             extra_facts(it, it.ctx)
-        req = Obj("Request", power=Obj("Power", atom=P), adjust_power=adjust, component_ids=Obj("ids"))
-        return {"self": Obj("self"), fn.params[1]: req, fn.params[2]: Obj("pairs")}
+        bid = Obj("battery_id")
+        ids = [] if shape == "no ids" else [bid]
+        caches = {} if shape == "unknown id" else {it.key(bid): Obj("cache")}
+        req = Obj("Request", power=Obj("Power", atom=P), adjust_power=adjust, component_ids=ids)
+        return {fn.params[0]: Obj(MANAGER, _battery_caches=caches), fn.params[1]: req, fn.params[2]: pairs}
 
-    outs = it.explore(tail, make_args, lambda res: post(it, res, it.ctx))
+    outs = it.explore(body, make_args, lambda res: post(it, res, it.ctx))
+    if not any(reached_bounds(o) for o in outs):
+        raise AnalysisError(f"{fn.qual}: no abstract path reads self.{GET_BOUNDS}(...)")
     return fn, outs
